@@ -71,4 +71,9 @@ META = {
   text="Acceptance implies the well-linkedness clauses (returns error/(T,error), every binding references a parameter, every parameter referenced, every {name} of the method route bound, aliases name {names}, one body at most and never with form fields) as Lean theorems over the validator model for all methods; that an error diagnostic blocks all output is decided on call skeletons regenerated from pipeline.go and entrypoint.go. The model is tied to the real validators by exact equality of the diagnostic multisets on generated projects incl. all single/double perturbations, and the property's own definition is evaluated against the real verdict per route.",
   note="Partial: completeness direction and the controller-prefix part are checked per case, not proved; open findings C10-F1, C10-F2.",
  ),
+ "C18": dict(
+  technique="Lean 4 proof (first-occurrence search: a found range covers text equal to the value, lies inside the text, start<=end, and exists for every contiguous value - rune arithmetic for all texts) + source-slicing correspondence on real diagnostics",
+  text="That a value range covers text equal to the value, inside the comment, with start<=end, is proved for every comment text and value (multi-byte included); the matcher's soundness (C16) supplies that every captured value is a contiguous part of the line. Every run slices the real source of generated/perturbed projects by each reported range and checks file, containment in the entity's comment+declaration, covered text, duplicates, and code/severity against the validator model.",
+  note="Open finding C18-F1 (duplicate entity blocks in the error text; pinned by the suite).",
+ ),
 }
